@@ -1029,7 +1029,7 @@ def generate(repo):
     for name, fn in GENERATORS.items():
         try:
             files[name] = fn(repo)
-        except (TranslatorError, SyntaxError, OSError) as e:
+        except Exception as e:              # any failure of a generator is a shape it cannot translate: fail closed
             errors[name] = '%s: %s' % (type(e).__name__, e)
             files[name] = ('(* TRANSLATOR FAILED: the source no longer has a shape the translator accepts *)\n'
                            'Definition translator_failed : True := 0.\n')
